@@ -51,8 +51,65 @@ theorem pWrite_res (st : PState) (b : List Point) :
     (pWrite st b).2 = (writePoints { sch := st.mem, data := st.data } b).2 := by
   unfold pWrite; rfl
 
+theorem pWrite_series (st : PState) (b : List Point) : (pWrite st b).1.series = touchSeries st.series b := by
+  unfold pWrite
+  simp only
+  split <;> simp [appendLog]
+
+theorem touchSeries_old (series : List String) (b : List Point) (m : String)
+    (h : series.contains m = true) : (touchSeries series b).contains m = true := by
+  unfold touchSeries
+  simp only [List.contains_eq_mem, List.mem_append, decide_eq_true_eq] at h ⊢
+  exact Or.inl h
+
+theorem touchSeries_new (series : List String) (b : List Point) (p : Point) (hp : p ∈ b)
+    (ht : hasTimeTag p = false) : (touchSeries series b).contains p.meas = true := by
+  unfold touchSeries
+  simp only [List.contains_eq_mem, List.mem_append, decide_eq_true_eq]
+  by_cases hs : p.meas ∈ series
+  · exact Or.inl hs
+  · right
+    rw [List.mem_eraseDups, List.mem_filter]
+    refine ⟨List.mem_map.2 ⟨p, List.mem_filter.2 ⟨hp, by simp [ht]⟩, rfl⟩, by simp [hs]⟩
+
+/-- an accepted point has no `time` tag -/
+theorem accepted_no_timeTag (s : Schema) (pts : List Point) (p : Point) (v : VRes)
+    (hm : (p, v) ∈ (verdicts s pts).2.2) (ha : v.accepted = true) : hasTimeTag p = false := by
+  induction pts generalizing s with
+  | nil => simp [verdicts] at hm
+  | cons q ps ih =>
+    unfold verdicts at hm
+    split at hm
+    · rcases List.mem_cons.1 hm with heq | hm'
+      · cases heq; simp at ha
+      · exact ih _ hm'
+    · next h1 =>
+      split at hm
+      · rcases List.mem_cons.1 hm with heq | hm'
+        · cases heq; simp at ha
+        · exact ih _ hm'
+      · rcases List.mem_cons.1 hm with heq | hm'
+        · cases heq; simpa using h1
+        · exact ih _ hm'
+
 theorem write_inv (st : PState) (b : List Point) (h : PInv st) : PInv (pWrite st b).1 := by
-  refine ⟨?_, ?_, ?_, ?_, ?_⟩
+  refine ⟨?_, ?_, ?_, ?_, ?_, ?_⟩
+  rotate_right
+  · rw [pWrite_data, pWrite_series]
+    intro e he
+    rcases mem_foldl_upsert _ _ e he with h1 | h1
+    · unfold accE at h1
+      obtain ⟨pv, hpv, hpe⟩ := List.mem_flatMap.1 h1
+      obtain ⟨hm, ha⟩ := List.mem_filter.1 hpv
+      have hmeas : e.1.1 = pv.1.meas := by
+        unfold pointEntries at hpe
+        obtain ⟨f, _, rfl⟩ := List.mem_map.1 hpe
+        rfl
+      rw [hmeas]
+      apply touchSeries_new _ _ pv.1 _ (accepted_no_timeTag st.mem b pv.1 pv.2 hm ha)
+      rw [← verdicts_map_fst st.mem b]
+      exact List.mem_map.2 ⟨pv, hm, rfl⟩
+    · exact touchSeries_old _ _ _ (h.seriesOK e h1)
   · rw [pWrite_mem]; exact verdicts_nd b st.mem h.ndMem
   · rw [pWrite_idx]; exact h.ndIdx
   · rw [pWrite_data]; exact nodup_foldl_upsert _ _ h.ndData
@@ -141,7 +198,14 @@ theorem drop_inv (st : PState) (m : String) (h : PInv st) : PInv (pDrop st m) :=
   unfold pDrop
   by_cases ha : dropApplies st m = true
   · simp only [ha, if_true, appendLog]
-    refine ⟨nd_dropMeas _ _ h.ndMem, h.ndIdx, nodup_keys_filter _ _ h.ndData, ?_, ?_⟩
+    refine ⟨nd_dropMeas _ _ h.ndMem, h.ndIdx, nodup_keys_filter _ _ h.ndData, ?_, ?_, ?_⟩
+    rotate_right
+    · intro e he
+      obtain ⟨he1, he2⟩ := List.mem_filter.1 he
+      show (st.series.filter (· != m)).contains e.1.1 = true
+      have h1 := h.seriesOK e he1
+      simp only [List.contains_eq_mem, decide_eq_true_eq] at h1 ⊢
+      exact List.mem_filter.2 ⟨h1, he2⟩
     · intro e he
       obtain ⟨he1, he2⟩ := List.mem_filter.1 he
       show (dropMeas st.mem m).lookup (e.1.1, e.1.2.2.1) = some e.2.1
@@ -196,9 +260,30 @@ theorem drop_ok (M : Mem) (st : PState) (m : String) (hI : PInv st) (hR : Rel M 
     by_cases hk : k.1 = m
     · simp [hk]
     · simp [hk, pDrop_others st m k hk]
+  have hgone : ((storeOf M.cur).any (fun e => e.1.1 == m) && hasMeas (pDrop st m).mem m) = false := by
+    by_cases hd : (storeOf M.cur).any (fun e => e.1.1 == m) = true
+    · rw [hR.cur] at hd
+      simp only [storeOf, Option.getD_some, List.any_eq_true, beq_iff_eq] at hd
+      obtain ⟨e, he, hem⟩ := hd
+      have happ : dropApplies st m = true := by
+        unfold dropApplies
+        have h1 := hI.seriesOK e he
+        rw [hem] at h1
+        have h2 : st.data.isEmpty = false := by
+          cases hdd : st.data with
+          | nil => rw [hdd] at he; cases he
+          | cons _ _ => rfl
+        rw [h1, h2]; rfl
+      have hmem : (pDrop st m).mem = dropMeas st.mem m := by unfold pDrop; simp [happ, appendLog]
+      rw [hmem, hasMeas_false_of_lookup _ (nd_dropMeas _ _ hI.ndMem) m
+        (fun k t hk => by
+          rw [lookup_dropMeas] at hk
+          intro hkm; simp [hkm] at hk)]
+      simp
+    · simp [hd]
   constructor
   · simp only [stepFails, Bool.not_true, Bool.false_eq_true, if_false]
-    rw [seenFails_ok _ hI', hothers, hsub]
+    rw [seenFails_ok _ hI', hothers, hsub, hgone]
     simp
   · simp only [stepFails, Bool.not_true, Bool.false_eq_true, if_false]
     refine ⟨rfl, ?_⟩
@@ -242,13 +327,13 @@ theorem hasMeas_transfer (a b : Schema) (hb : ND b) (m : String) (ha : hasMeas a
 /-- a restart from files that reconstruct the in-memory field set is invisible -/
 theorem restart_ok (M : Mem) (st : PState) (kind : Restart) (stc : PState) (n : Nat)
     (hI : PInv st) (hR : Rel M st)
-    (hIdx : ND (stc.idx.getD [])) (hdata : stc.data = st.data)
+    (hIdx : ND (stc.idx.getD [])) (hdata : stc.data = st.data) (hser : stc.series = st.series)
     (hseq : SEq (replay (stc.idx.getD []) (cutLog (stc.log.getD []) n).flatten) st.mem) :
     (stepFails M (reopened (.restart kind) stc n).2).1 = none ∧
     PInv (reopened (.restart kind) stc n).1 ∧
     Rel (stepFails M (reopened (.restart kind) stc n).2).2 (reopened (.restart kind) stc n).1 := by
-  obtain ⟨st', h0, hI', hs, hd⟩ := reopen_inv stc n st.mem hIdx (by rw [hdata]; exact hI.ndData) hseq
-    (by rw [hdata]; exact hI.typed)
+  obtain ⟨st', h0, hI', hs, hd⟩ := reopen_inv stc n st.mem hIdx (by rw [hdata]; exact hI.ndData)
+    (by rw [hdata, hser]; exact hI.seriesOK) hseq (by rw [hdata]; exact hI.typed)
   unfold reopened
   simp only [h0]
   rw [seen_eq _ hI']
@@ -281,6 +366,7 @@ theorem reopen_ok (M : Mem) (st : PState) (hI : PInv st) (hR : Rel M st) :
       · simp only [he, if_true, Option.getD_none]; exact List.nodup_nil
       · simp only [he, Bool.false_eq_true, if_false, Option.getD_some]; exact hI.ndMem
   · unfold closeFields; cases st.log <;> rfl
+  · unfold closeFields; cases st.log <;> rfl
   · unfold closeFields
     cases hl : st.log with
     | none =>
@@ -305,7 +391,7 @@ theorem crash_ok (M : Mem) (st : PState) (hI : PInv st) (hR : Rel M st) :
     (stepFails M (step10 st .crash).2).1 = none ∧ PInv (step10 st .crash).1 ∧
     Rel (stepFails M (step10 st .crash).2).2 (step10 st .crash).1 := by
   simp only [step10]
-  exact restart_ok M st .kill st _ hI hR hI.ndIdx rfl (crash_seq st hI)
+  exact restart_ok M st .kill st _ hI hR hI.ndIdx rfl rfl (crash_seq st hI)
 
 theorem crashInClose_ok (M : Mem) (st : PState) (p : CrashPoint) (hI : PInv st) (hR : Rel M st) :
     (stepFails M (step10 st (.crashInClose p)).2).1 = none ∧ PInv (step10 st (.crashInClose p)).1 ∧
@@ -327,7 +413,7 @@ theorem crashInClose_ok (M : Mem) (st : PState) (p : CrashPoint) (hI : PInv st) 
         · simp [he] at hc
         · simp only [he, Bool.false_eq_true, if_false, Option.some.injEq] at hc
           subst hc
-          exact restart_ok M st _ st _ hI hR hI.ndIdx rfl (crash_seq st hI)
+          exact restart_ok M st _ st _ hI hR hI.ndIdx rfl rfl (crash_seq st hI)
       | renamed =>
         simp only at hc
         by_cases he : st.mem.isEmpty = true
@@ -336,6 +422,7 @@ theorem crashInClose_ok (M : Mem) (st : PState) (p : CrashPoint) (hI : PInv st) 
           subst hc
           apply restart_ok M st _ _ _ hI hR
           · exact hI.ndMem
+          · rfl
           · rfl
           · -- the new snapshot already contains the log: the replay is idempotent
             show SEq (replay st.mem (cutLog recs (logLen recs)).flatten) st.mem
@@ -350,6 +437,7 @@ theorem crashInClose_ok (M : Mem) (st : PState) (p : CrashPoint) (hI : PInv st) 
           subst hc
           apply restart_ok M st _ _ _ hI hR
           · exact List.nodup_nil
+          · rfl
           · rfl
           · show SEq (replay [] (cutLog recs (logLen recs)).flatten) st.mem
             rw [cutLog_full _ _ (Nat.le_refl _)]
@@ -366,7 +454,7 @@ theorem crashInOpen_ok (M : Mem) (st : PState) (p : CrashPoint) (hI : PInv st) (
     Rel (stepFails M (step10 st (.crashInOpen p)).2).2 (step10 st (.crashInOpen p)).1 := by
   simp only [step10]
   cases hc : crashInOpen st p with
-  | none => exact restart_ok M st .kill st _ hI hR hI.ndIdx rfl (crash_seq st hI)
+  | none => exact restart_ok M st .kill st _ hI hR hI.ndIdx rfl rfl (crash_seq st hI)
   | some stc =>
     simp only
     unfold crashInOpen at hc
@@ -386,6 +474,7 @@ theorem crashInOpen_ok (M : Mem) (st : PState) (p : CrashPoint) (hI : PInv st) (
           apply restart_ok M st _ _ _ hI hR
           · exact List.nodup_nil
           · rfl
+          · rfl
           · show SEq (replay [] (cutLog [] _).flatten) st.mem
             rw [cutLog_nil]
             have h0 := List.isEmpty_iff.1 he
@@ -400,7 +489,7 @@ theorem crashInOpen_ok (M : Mem) (st : PState) (p : CrashPoint) (hI : PInv st) (
         · simp [he] at hc
         · simp only [he, Bool.false_eq_true, if_false, Option.some.injEq] at hc
           subst hc
-          exact restart_ok M st _ st _ hI hR hI.ndIdx rfl (crash_seq st hI)
+          exact restart_ok M st _ st _ hI hR hI.ndIdx rfl rfl (crash_seq st hI)
       | renamed =>
         simp only at hc
         by_cases he : (replay (st.idx.getD []) (st.log.getD []).flatten).isEmpty = true
@@ -409,6 +498,7 @@ theorem crashInOpen_ok (M : Mem) (st : PState) (p : CrashPoint) (hI : PInv st) (
           subst hc
           apply restart_ok M st _ _ _ hI hR
           · exact nd_replay _ _ hI.ndIdx
+          · rfl
           · rfl
           · show SEq (replay (replay (st.idx.getD []) (st.log.getD []).flatten)
                 (cutLog (st.log.getD []) (logLen (st.log.getD []))).flatten) st.mem
@@ -421,6 +511,7 @@ theorem crashInOpen_ok (M : Mem) (st : PState) (p : CrashPoint) (hI : PInv st) (
           subst hc
           apply restart_ok M st _ _ _ hI hR
           · exact List.nodup_nil
+          · rfl
           · rfl
           · show SEq (replay [] (cutLog (st.log.getD []) (logLen (st.log.getD []))).flatten) st.mem
             rw [cutLog_full _ _ (Nat.le_refl _)]
@@ -436,13 +527,14 @@ theorem crashInOpen_ok (M : Mem) (st : PState) (p : CrashPoint) (hI : PInv st) (
 theorem tornWrite_ok (M : Mem) (st : PState) (b : List Point) (stc : PState) (n : Nat) (T : Schema)
     (hI : PInv st) (hR : Rel M st)
     (hIdx : ND (stc.idx.getD [])) (hdata : stc.data = st.data)
+    (hSer : ∀ e ∈ stc.data, stc.series.contains e.1.1 = true)
     (hseq : SEq (replay (stc.idx.getD []) (cutLog (stc.log.getD []) n).flatten) T)
     (hkeep : ∀ k t, st.mem.lookup k = some t → T.lookup k = some t)
     (hnew : ∀ k t, T.lookup k = some t → st.mem.lookup k = some t ∨ carries b k t = true) :
     (stepFails M (reopened (.tornWrite b) stc n).2).1 = none ∧
     PInv (reopened (.tornWrite b) stc n).1 ∧
     Rel (stepFails M (reopened (.tornWrite b) stc n).2).2 (reopened (.tornWrite b) stc n).1 := by
-  obtain ⟨st', h0, hI', hs, hd⟩ := reopen_inv stc n T hIdx (by rw [hdata]; exact hI.ndData) hseq
+  obtain ⟨st', h0, hI', hs, hd⟩ := reopen_inv stc n T hIdx (by rw [hdata]; exact hI.ndData) hSer hseq
     (by rw [hdata]; exact fun e he => hkeep _ _ (hI.typed e he))
   unfold reopened
   simp only [h0]
@@ -512,7 +604,7 @@ theorem writeTorn_ok (M : Mem) (st : PState) (j : Int) (b : List Point) (hI : PI
       by_cases hfull : recordLen (createdRecord (verdicts st.mem b).2.1) ≤ x
       · -- the whole record is in the file: the created fields are on record
         refine tornWrite_ok M st b (appendLog { st with series := touchSeries st.series b } _) _
-          (verdicts st.mem b).1 hI hR hI.ndIdx rfl ?_ ?_ ?_
+          (verdicts st.mem b).1 hI hR hI.ndIdx rfl (fun e he => touchSeries_old _ _ _ (hI.seriesOK e he)) ?_ ?_ ?_
         · rw [hlog, cutLog_append]
           simp only [hfull, if_true, List.flatten_append, List.flatten_cons, List.flatten_nil, List.append_nil]
           show SEq (replay (st.idx.getD []) ((st.log.getD []).flatten ++ _)) _
@@ -522,7 +614,7 @@ theorem writeTorn_ok (M : Mem) (st : PState) (j : Int) (b : List Point) (hI : PI
         · exact fun k t hk => verdicts_new b st.mem k t hk
       · -- the record is cut: it is dropped by the load
         refine tornWrite_ok M st b (appendLog { st with series := touchSeries st.series b } _) _
-          st.mem hI hR hI.ndIdx rfl ?_ ?_ ?_
+          st.mem hI hR hI.ndIdx rfl (fun e he => touchSeries_old _ _ _ (hI.seriesOK e he)) ?_ ?_ ?_
         · rw [hlog, cutLog_append]
           simp only [hfull, if_false]
           exact hI.disk
@@ -533,6 +625,7 @@ theorem writeTorn_ok (M : Mem) (st : PState) (j : Int) (b : List Point) (hI : PI
 theorem tornDrop_ok (M : Mem) (st : PState) (m : String) (stc : PState) (n : Nat) (T : Schema)
     (hI : PInv st) (hR : Rel M st)
     (hIdx : ND (stc.idx.getD [])) (hdata : stc.data = st.data.filter (fun e => e.1.1 != m))
+    (hSer : ∀ e ∈ stc.data, stc.series.contains e.1.1 = true)
     (hseq : SEq (replay (stc.idx.getD []) (cutLog (stc.log.getD []) n).flatten) T)
     (hsub : ∀ k t, T.lookup k = some t → st.mem.lookup k = some t)
     (hkeep : ∀ k t, st.mem.lookup k = some t → k.1 ≠ m → T.lookup k = some t) :
@@ -540,7 +633,7 @@ theorem tornDrop_ok (M : Mem) (st : PState) (m : String) (stc : PState) (n : Nat
     PInv (reopened (.tornDrop m) stc n).1 ∧
     Rel (stepFails M (reopened (.tornDrop m) stc n).2).2 (reopened (.tornDrop m) stc n).1 := by
   have hnd : (stc.data.map (·.1)).Nodup := by rw [hdata]; exact nodup_keys_filter _ _ hI.ndData
-  obtain ⟨st', h0, hI', hs, hd⟩ := reopen_inv stc n T hIdx hnd hseq
+  obtain ⟨st', h0, hI', hs, hd⟩ := reopen_inv stc n T hIdx hnd hSer hseq
     (by
       rw [hdata]; intro e he
       obtain ⟨he1, he2⟩ := List.mem_filter.1 he
@@ -602,6 +695,7 @@ theorem dropTorn_ok (M : Mem) (st : PState) (j : Int) (m : String) (hI : PInv st
       unfold pDrop; simp [ha, appendLog]
     by_cases hfull : recordLen [Change.del m] ≤ x
     · apply tornDrop_ok M st m _ _ (dropMeas st.mem m) hI hR (by rw [hidx]; exact hI.ndIdx) hdat
+        (drop_inv st m hI).seriesOK
       · rw [hlog, hidx, cutLog_append]
         simp only [hfull, if_true, List.flatten_append, List.flatten_cons, List.flatten_nil, List.append_nil]
         rw [replay_append]
@@ -614,6 +708,7 @@ theorem dropTorn_ok (M : Mem) (st : PState) (j : Int) (m : String) (hI : PInv st
       · intro k t hk hkm
         rw [lookup_dropMeas]; simp [hkm, hk]
     · apply tornDrop_ok M st m _ _ st.mem hI hR (by rw [hidx]; exact hI.ndIdx) hdat
+        (drop_inv st m hI).seriesOK
       · rw [hlog, hidx, cutLog_append]
         simp only [hfull, if_false]
         exact hI.disk
